@@ -84,11 +84,17 @@ def kept_of_case(case):
 
 def same(case, r, m):
     """canonical implementation result vs canonical model response"""
+    f = case["f"]
+    if f == "hypergraph_dict" and (case.get("opt") or {}).get("max_order"):
+        # the model answered for the network without the edges above max_order: only the network read back is comparable
+        # (the dict written, and a refusal by the writer, concern the unfiltered network: the predicate's business)
+        if r.get("out") != "ok":
+            return True
+        return m.get("out") == "ok" and norm_rt(f, r["rt"], None) == norm_rt(f, m["rt"], None)
     if r.get("out") != m.get("out"):
         return False
     if r["out"] != "ok":
         return True
-    f = case["f"]
     if norm_rep(f, r.get("rep")) != norm_rep(f, m.get("rep")):
         return False
     return norm_rt(f, r["rt"], kept_of_case(case) if r["rt"]["cls"] == "sc" else None) == \
@@ -108,14 +114,33 @@ def run_impl(case):
         return {"out": L.err_kind(ex), "msg": f"{type(ex).__name__}: {ex}"[:200]}
 
 
+SAME_AS_DEFAULT = {"names", "reordered", "renamed", "positions-swapped"}
+
+
 def request_of(case):
-    """the driver request: a hand-built graph is sent as networkx presents it (vertex order with flags, `G.edges`)"""
+    """the driver request, or None when the model has no answer for this way of calling the converter (the predicate
+    alone decides then).  A hand-built graph is sent as networkx presents it (vertex order with flags, `G.edges`); an
+    option whose documented effect is expressible on the input is sent as the default call on the transformed input."""
     if case["f"] == "from_bipartite_graph":
         with warnings.catch_warnings():
             warnings.simplefilter("ignore")
             g = L.graph_rep(L.build_graph(case["graph"]))
         return {"f": "from_bipartite_graph", "nx": g}
-    return case
+    if case.get("directed_undocumented"):
+        return None
+    opt = case.get("opt")
+    if not opt:
+        return case
+    f = case["f"]
+    plain = {k: v for k, v in case.items() if k != "opt"}
+    if f == "hypergraph_dict" and "max_order" in opt:
+        a = case["net"]
+        keep = [i for i, e in enumerate(a["edges"]) if not opt["max_order"] or len(L.members_of(e)) <= opt["max_order"] + 1]
+        return dict(plain, net=dict(a, edges=[a["edges"][i] for i in keep], eattr=[a["eattr"][i] for i in keep]))
+    if (f == "hyperedge_list" and "max_order" in opt and not case.get("using")) or opt == {"index": False} \
+            or (f == "dataframe" and opt.get("columns") in SAME_AS_DEFAULT):
+        return plain      # the option must not change the result
+    return None
 
 
 def failure_classes(case):
@@ -125,6 +150,9 @@ def failure_classes(case):
 def shrink(case, cls, budget=150):
     """greedy: drop edges, nodes, attributes (or graph vertices / edges) while the same clause still fails"""
     cur = copy.deepcopy(case)
+    auto_types = ("net" in case and case["f"] == "hypergraph_dict"
+                  and case.get("nodetype") == L.nodetype_for([L.dec_id(n) for n in case["net"]["nodes"]])
+                  and case.get("edgetype") == L.nodetype_for([L.dec_id(e[0]) for e in case["net"]["edges"]]))
 
     def still(c):
         nonlocal budget
@@ -159,8 +187,12 @@ def shrink(case, cls, budget=150):
             for i, (_, at) in enumerate(a[key]):
                 if at:
                     d = copy.deepcopy(c); d["net"][key][i][1] = []; yield d
-        if a["gattr"] and len(a["gattr"]) > 1:
-            d = copy.deepcopy(c); d["net"]["gattr"] = a["gattr"][:1]; yield d
+        if a["gattr"]:
+            d = copy.deepcopy(c); d["net"]["gattr"] = []; yield d
+        for key in ("nattr", "eattr"):
+            for i, (_, at) in enumerate(a[key]):
+                for j in range(len(at) if len(at) > 1 else 0):
+                    d = copy.deepcopy(c); del d["net"][key][i][1][j]; yield d
 
     changed = True
     while changed and budget > 0:
@@ -168,7 +200,7 @@ def shrink(case, cls, budget=150):
         for d in candidates(cur):
             if budget <= 0:
                 break
-            if "net" in d and d["f"] == "hypergraph_dict":
+            if "net" in d and d["f"] == "hypergraph_dict" and auto_types:
                 d["nodetype"] = L.nodetype_for([L.dec_id(n) for n in d["net"]["nodes"]])
                 d["edgetype"] = L.nodetype_for([L.dec_id(e[0]) for e in d["net"]["edges"]])
             if still(d):
@@ -187,7 +219,15 @@ def run_cases(ctx, cases, label="C10", record=True):
         ctx.stats["f:" + c["f"] + (":" + c["target"] if c["f"] == "class" else "")] += 1
         if "net" in c:
             ctx.stats["class:" + c["net"]["cls"]] += 1
-        if str(r.get("out", "")).startswith("err"):
+        if c.get("opt"):
+            ctx.stats["option:" + c["f"] + ":" + ",".join(f"{k}={v}" for k, v in sorted(c["opt"].items()))] += 1
+        if c.get("directed_undocumented"):
+            kind = L.classify_directed(c, r)
+            ctx.stats[f"directed_undocumented:{c['f']}:{kind}"] += 1
+            ctx.extra.setdefault("directed_on_undirected_only_converters", {}).setdefault(c["f"], {})
+            d = ctx.extra["directed_on_undirected_only_converters"][c["f"]]
+            d[kind] = d.get(kind, 0) + 1
+        if str(r.get("out", "")).startswith("err") and not c.get("directed_undocumented"):
             ctx.stats["impl_" + r["out"]] += 1
         net = c.get("net")
         if (net and any(len(L.members_of(e)) >= 2 for e in net["edges"])) or (c.get("graph") and len(c["graph"]["eorder"]) >= 2):
@@ -202,11 +242,19 @@ def run_cases(ctx, cases, label="C10", record=True):
             known_before = any(v["site"] == site_of(c) and v["failure_class"] == cls for v in ctx.violations)
             small = c if known_before else shrink(c, cls)
             ctx.violation(site_of(c), cls, small, detail=detail if small is c else (dict(L.pred(small, run_impl(small))).get(cls, detail)))
-        if record:
+        if record and jhash(c) in ctx.nontrivial and (c.get("opt") or len(ctx.samples) < 2):
             ctx.sample({"request": c, "impl": {k: v for k, v in r.items() if not k.startswith("_")}}, cap=3)
-    resps = run_driver("C10", [request_of(c) for c in cases])
+    reqs = [request_of(c) for c in cases]
+    sent = [i for i, q in enumerate(reqs) if q is not None]
+    answers = run_driver("C10", [reqs[i] for i in sent]) if sent else []
+    resps = [None] * len(cases)
+    for i, m in zip(sent, answers):
+        resps[i] = m
     dis = []
     for c, r, m in zip(cases, results, resps):
+        if m is None:
+            ctx.stats["predicate_only"] += 1
+            continue
         if m.get("out") == "bad-op":
             raise Infra(f"model C10 rejected request (harness defect): {json.dumps(c)[:300]}")
         if m.get("out") == "unmodelled":
@@ -271,6 +319,14 @@ def fixed_cases(rng):
             nets.append(bare(ints + [s, 2], [(0, ints + [s]), (1, [2, 7])]))
     for a in nets:
         out += L.cases_for(rng, a)
+    # attribute keys spelled like parameters of add_node / add_edge (`**attr` forwarding), on an isolated node, an empty
+    # edge, a member node and a non-empty edge; non-scalar values
+    ak = bare([1, 2, 9], [(0, [1, 2]), ("x", [])], gattr=[["incoming_data", 3], ["name", "g"]])
+    ak["nattr"] = [[1, [["node", 3]]], [2, []], [9, [["node", "a"], ["attr", {"$o": "[1, 2]"}]]]]
+    ak["eattr"] = [[0, [["members", 1], ["weight", {"$o": "0.5"}]]], ["x", [["idx", 1], ["members", "r"], ["edge", None]]]]
+    out += L.cases_for(rng, ak)
+    out += L.cases_for(rng, dict(ak, cls="dhg", edges=[[0, [1], [2]], ["x", [], []]]))
+    out += L.cases_for(rng, dict(ak, cls="sc", edges=[[0, [1, 2]]], eattr=[[0, [["idx", 7], ["members", "m"]]]]))
     d = {"cls": "dhg", "nodes": [1, 2, 3], "edges": [[0, [1, 2], [3]], [1, [], []], [2, [3], [3]]],
          "nattr": [[1, []], [2, [["c", "r"]]], [3, []]], "eattr": [[0, [["w", 2]]], [1, []], [2, []]], "gattr": [["name", "d"]]}
     out += L.cases_for(rng, d)
@@ -299,7 +355,7 @@ def generated(rng, n):
     cases = []
     for i in range(n):
         a = L.gen_anet(rng, rng.choice(["hg", "hg", "dhg", "sc"]))
-        cases += L.cases_for(rng, a)
+        cases += L.cases_for(rng, a, options=5)
         cases.append(L.gen_graph_case(rng, a if a["cls"] != "sc" and rng.random() < 0.5 else None, invalid=rng.random() < 0.15))
     return cases
 
@@ -314,12 +370,16 @@ def exhaustive_cases(rng, n_nodes, max_edges):
 def run(ctx):
     ok = build_and_audit(ctx, "XgiModel.Props.C10", ["XgiModel.C10.Drive"])
     ctx.rule = ("networks of the three classes from one PRNG (<=6 nodes, <=6 edges; isolated nodes, empty edges, multi-edges, "
-                "int IDs incl. 0 / negative / decreasing, string and mixed IDs, attributes on nodes, edges and the network) x every "
-                "converter pair (hyperedge list/dict, bipartite edge list, labelled and unlabelled incidence matrix sparse/dense, "
-                "bipartite graph with index maps, dataframe, hypergraph dict, HIF dict, Hypergraph/DiHypergraph/SimplicialComplex "
-                "constructors), plus hand-built networkx graphs in random vertex/edge insertion orders and (node,edge)/(edge,node) "
-                "orientations incl. invalid ones; non-trivial = distinct case whose network has an edge with >=2 members")
-    cases = load_corpus() + fixed_cases(ctx.rng) + generated(ctx.rng, ctx.n(120, 10000))
+                "int IDs incl. 0 / negative / decreasing, string and mixed IDs; attributes on nodes, edges and the network whose KEYS "
+                "include the parameter names node / idx / members / attr / edge / n / weight / name / self ... and whose VALUES include "
+                "floats, bools, lists and dicts) x every converter pair (hyperedge list/dict, bipartite edge list, labelled and unlabelled "
+                "incidence matrix sparse/dense, bipartite graph with index maps, dataframe, hypergraph dict, HIF dict, the three class "
+                "constructors) x an option axis (max_order, one label list only, index=False, dual=True, column names / positions / "
+                "exchanged columns, create_using, nodetype/edgetype casts that really change the IDs: digit strings -> int, int -> str), "
+                "a DiHypergraph given to every converter (also those documented for undirected input: outcome classified and recorded), "
+                "plus hand-built networkx graphs in random vertex/edge insertion orders and (node,edge)/(edge,node) orientations incl. "
+                "invalid ones; non-trivial = distinct case whose network has an edge with >=2 members")
+    cases = load_corpus() + fixed_cases(ctx.rng) + generated(ctx.rng, ctx.n(400, 10000))
     dis = run_cases(ctx, cases)
     if not ctx.quick:
         ex = list(exhaustive_cases(ctx.rng, 4, 3))
@@ -333,14 +393,28 @@ def run(ctx):
 
     conclude(ctx, ok, dis, search)
     ctx.assumptions = [
-        "IDs restricted to int/str (no bool/float/tuple/None IDs); attribute values int/str/None",
-        "directed networks: only the representations that carry direction (bipartite edge list, bipartite graph, HIF) and the class "
-        "constructors; the other converters are documented for Hypergraph/SimplicialComplex only",
+        "IDs restricted to int/str (no bool/float/tuple/None IDs); attribute keys are strings, values None / int / float / bool / str / "
+        "lists / str-keyed dicts (the model carries non-int/str values as opaque canonical JSON text)",
+        "directed networks, decided per converter by its docstring: to_bipartite_edgelist ('H : Hypergraph, SimplicialComplex, or "
+        "DiHypergraph object'), to_bipartite_graph ('H: xgi.Hypergraph or xgi.DiHypergraph'), to_hif_dict ('H: Hypergraph, DiHypergraph, or "
+        "SimplicialComplex object') and the class constructors are checked with direction.  The other converters document undirected "
+        "input only - " + "; ".join(sorted(set(L.UNDIRECTED_ONLY_DOC.values()))) + " - so a DiHypergraph is outside their documented domain: "
+        "each is still called with every generated DiHypergraph and the outcome is recorded in coverage.directed_on_undirected_only_converters "
+        "as 'raises-<Type>' (to_incidence_matrix: KeyError 'in'), 'undirected-shadow' (hyperedge list / dict, hypergraph dict: the round trip "
+        "of the underlying undirected network tail | head, direction - and for the hypergraph dict the class - silently dropped: NOT the "
+        "statement's 'with direction', accepted here only because the input is undocumented) or 'garbage'; only 'garbage' (accepted without "
+        "error and not even the underlying undirected network: to_bipartite_pandas_dataframe gives the edges 'in' and 'out') is reported, as "
+        "the finding directed-input-garbage (listed in known_findings/C10.json: a two-column dataframe cannot carry direction, no small repair)",
         "to_hypergraph_dict: colliding str() casts are refused (XGIError) and sorted() of a member set mixing int and str raises "
-        "TypeError — both are the modelled, documented answers, not round-trip failures; IDs come back under nodetype/edgetype=int "
-        "when all IDs are ints, unchanged when all are strings, as their str() when mixed",
-        "round trips use the default create_using (result is a Hypergraph unless the format carries the class); "
-        "create_using=SimplicialComplex for hyperedge list/dict is checked by the predicate only",
+        "TypeError - both are the modelled, documented answers, not round-trip failures; IDs come back through nodetype/edgetype: int "
+        "gives ints (also from digit strings), no cast gives the str() of the ID",
+        "options: max_order on from_hypergraph_dict drops the edges above the order (predicate and model on the network without them); "
+        "max_order on from_hyperedge_list without create_using, index=False, column names / reordered columns must not change the result "
+        "(compared with the model's default answer); one label list, dual=True, exchanged columns, create_using, HIF casts are decided by "
+        "the predicate only (coverage.distribution 'predicate_only'); from_bipartite_graph(dual=True) on a DiGraph raises AttributeError "
+        "(DiHypergraph has no dual()) and is not generated",
+        "the bipartite-graph / dataframe / edge-list / matrix round trips are judged on incidences (and labels or positions) only: these "
+        "representations cannot carry empty edges or, for some, isolated nodes; the statement asks those of the two dicts only",
         "node order / edge order are compared only where they do not depend on Python set iteration order",
         "networkx, scipy/numpy, pandas act as oracles: the model receives G.nodes(data=True)/G.edges of hand-built graphs as networkx "
         "returns them",
